@@ -732,6 +732,10 @@ func (g *Gen) terraformZoo(b *BodySpec) {
 		Addr: &BlockAddrSpec{Steps: []StepSpec{{K: "static", Name: "var"}, {K: "label", Index: 0}}, Name: "variable", Scope: "variable", AsTypeOf: "type"}})
 	add(&BlockSpec{Type: "locals", Body: &BodySpec{Any: &AttrSpec{Name: "any", Opt: true, Cons: &ConsSpec{K: "any", Type: "any"},
 		Addr: &AttrAddrSpec{Steps: []StepSpec{{K: "static", Name: "local"}, {K: "attrname"}}, Scope: "local", AsExprType: true, AsRef: true}}}})
+	var ruleExt *ExtSpec
+	if g.chance(0.5) {
+		ruleExt = &ExtSpec{Count: g.chance(0.5)}
+	}
 	resBody := func(i int) *BodySpec {
 		return &BodySpec{Detail: "res detail", Desc: fmt.Sprintf("resource %d", i), DocsLink: &DocsLinkSpec{URL: fmt.Sprintf("https://example.com/r/%d", i)}, HoverURL: fmt.Sprintf("https://example.com/r/%d", i),
 			Attrs: []*AttrSpec{
@@ -742,14 +746,17 @@ func (g *Gen) terraformZoo(b *BodySpec) {
 				{Name: "secret_wo", Opt: true, WriteOnly: true, Cons: &ConsSpec{K: "any", Type: "string"}},
 			},
 			Blocks: []*BlockSpec{
-				{Type: "rule", BType: "list", Body: &BodySpec{Attrs: []*AttrSpec{{Name: "port", Opt: true, Cons: &ConsSpec{K: "any", Type: "number"}}, {Name: "cidr", Opt: true, Cons: &ConsSpec{K: "any", Type: "string"}}}}},
+				{Type: "rule", BType: "list", Body: &BodySpec{Ext: ruleExt, Attrs: []*AttrSpec{{Name: "port", Opt: true, Cons: &ConsSpec{K: "any", Type: "number"}}, {Name: "cidr", Opt: true, Cons: &ConsSpec{K: "any", Type: "string"}}}}},
 				{Type: "opts", BType: "object", Max: 1, Body: &BodySpec{Attrs: []*AttrSpec{{Name: "mode", Opt: true, Cons: &ConsSpec{K: "oneof", Elems: []*ConsSpec{{K: "kw", Kw: "auto"}, {K: "littype", Type: "string"}}}}}}},
 				{Type: "zone", BType: "set", Body: &BodySpec{Attrs: []*AttrSpec{{Name: "zone", Opt: true, Cons: &ConsSpec{K: "any", Type: "string"}}}}},
 				{Type: "ep", BType: "map", Labels: []*LabelSpec{{Name: "key"}}, Body: &BodySpec{Attrs: []*AttrSpec{{Name: "url", Opt: true, Cons: &ConsSpec{K: "any", Type: "string"}}}}},
 			}}
 	}
 	add(&BlockSpec{Type: "resource", Labels: []*LabelSpec{{Name: "type", DepKey: true, Completable: true, Mods: []string{"tf-type"}}, {Name: "name", Mods: []string{"tf-name"}}},
-		Body: &BodySpec{Ext: &ExtSpec{Count: true, ForEach: true, Dynamic: true, SelfRefs: g.chance(0.5)}, Attrs: []*AttrSpec{{Name: "provider", Opt: true, DepKey: true, Cons: &ConsSpec{K: "ref", Scope: "provider"}}}},
+		Body: &BodySpec{Ext: &ExtSpec{Count: true, ForEach: true, Dynamic: true, SelfRefs: g.chance(0.5)}, Attrs: []*AttrSpec{{Name: "provider", Opt: true, DepKey: true, Cons: &ConsSpec{K: "ref", Scope: "provider"}}},
+			// a static nested block with extensions of its own (like Terraform's provisioner/connection)
+			Blocks: []*BlockSpec{{Type: "provisioner", Labels: []*LabelSpec{{Name: "type"}}, Body: &BodySpec{Ext: &ExtSpec{SelfRefs: true},
+				Attrs: []*AttrSpec{{Name: "command", Opt: true, Cons: &ConsSpec{K: "any", Type: "string"}}, {Name: "when", Opt: true, Cons: &ConsSpec{K: "kw", Kw: "destroy"}}}}}}},
 		Dep: []*DepBodySpec{
 			{Labels: []LabelDepSpec{{Index: 0, Value: "aws_x"}}, Body: resBody(0)},
 			{Labels: []LabelDepSpec{{Index: 0, Value: "aws_y"}}, Body: resBody(1)},
